@@ -78,10 +78,17 @@ def judgeBuild (y mo d h mi s ns : Int) (ts : TS) (res : Option (Dur × String))
     if rej then "FAIL:accepted_invalid"
     else if tsn ≠ ts.name then "FAIL:scale"
     else if acc ∧ s < 60 then
-      verdict [("canonical", scanon e), ("elapsed", sval e == elapsedNs ts.name date h mi s ns)]
+      -- the exact count is demanded where a Duration can hold it (+/- 32 768 centuries); beyond, the result is a bound
+      -- or an error ("a bound is hit" is C01's subject) and only the canonical form is judged
+      let want := elapsedNs ts.name date h mi s ns
+      if want < -32768 * 3155760000000000000 ∨ want > 32768 * 3155760000000000000 then verdict [("canonical", scanon e)]
+      else verdict [("canonical", scanon e), ("elapsed", sval e == want)]
     else if acc then verdict [("canonical", scanon e)]
     else "ok"
-  | none => if acc then "FAIL:rejected_valid" else "ok"
+  | none =>
+    -- a valid date whose count no Duration can hold may also be an error (the code answers Overflow past year 5 885 416)
+    let want := elapsedNs ts.name date h mi s ns
+    if acc && decide (-32768 * 3155760000000000000 ≤ want ∧ want ≤ 32768 * 3155760000000000000) then "FAIL:rejected_valid" else "ok"
 
 def outcomeTag (y mo d h mi s ns : Int) : String :=
   let date : Date := ⟨y, mo, d⟩
